@@ -138,7 +138,7 @@ impl PendingEntryList {
 
 //@@ unit pel_add_entry fn src/storage/consumer_groups.rs PendingEntryList::add_entry
 //@@   rewrite RXPR "self.entries_by_consumer .entry(consumer) .or_insert_with(Vec::new) .push(id)" "verif_idx_push(&mut self.entries_by_consumer, consumer, id)"
-//@@   after "self.update_bounds();"
+//@@   atend
 //@@|     proof {
 //@@|         let ids0 = old(self).ids(); let idx0 = old(self).idx(); let ids1 = self.ids(); let idx1 = self.idx(); let cons = entry.consumer;
 //@@|         assert(consumer == cons);
@@ -166,7 +166,7 @@ impl PendingEntryList {
 
 //@@ unit pel_remove_entry fn src/storage/consumer_groups.rs PendingEntryList::remove_entry
 //@@   rewrite RXPR "consumer_entries.retain(|&x| x != *id)" "verif_retain_ne(consumer_entries, id)"
-//@@   after "self.update_bounds();"
+//@@   at "Some(entry)"
 //@@|     proof { lemma_removed_wf(old(self).ids(), old(self).idx(), self.ids(), self.idx(), *id); }
     fn remove_entry(&mut self, id: &StreamId) -> (r: Option<PendingEntry>)
         requires old(self).wf(),
